@@ -591,12 +591,53 @@ def run(ctx):
         fs = asg.get('header.file_header.file_size')
         do = asg.get('header.file_header.data_offset')
         hs = asg.get('header.info_header.header_size')
-        okh = fs is not None and do is not None and hs is not None and nf(do) == 'header_size' and \
-            nf(fs) == '(' + ' + '.join(sorted(['header_size', '(' + ' * '.join(sorted(['height', 'pixel_bytes', 'width'])) + ')', '(' + ' * '.join(sorted(['height', 'row_padding_bytes'])) + ')'])) + ')'
-        ctx.check(okh, R, 'header|sizes', ih[0], 'file_size = header + W*H*pixel_bytes + padding*H; data_offset = header size', 'BMP header sizes: file_size=%s data_offset=%s' % (nf(fs) if fs else None, nf(do) if do else None))
-        bd = asg.get('header.info_header.bit_depth')
-        cmp_ = asg.get('header.info_header.compression')
-        ctx.check(bd is not None and nf(bd) == '(has_alpha ? 32 : 24)' and cmp_ is not None and nf(cmp_) == '(has_alpha ? 3 : 0)', R, 'header|depth-compression', ih[0], '32-bit BITFIELDS with alpha, 24-bit RGB without', 'bit depth / compression fields are %s / %s' % (nf(bd) if bd else None, nf(cmp_) if cmp_ else None))
+        from poly import Poly as _PH, p_add as _pa, p_mul as _pm, p_atom as _pat, p_str as _ps
+        PH = _PH(ih[0], u)
+
+        def unwrap(e_):
+            e_ = strip(e_)
+            while e_ is not None and e_.get('kind') in ('MaterializeTemporaryExpr', 'CXXConstructExpr', 'CXXFunctionalCastExpr', 'ImplicitCastExpr', 'CXXBindTemporaryExpr', 'ExprWithCleanups', 'CXXTemporaryObjectExpr', 'ParenExpr') and kids(e_):
+                e_ = strip(kids(e_)[-1])
+            return e_
+        okh = False
+        whyh = 'BMP header sizes: file_size=%s data_offset=%s' % (nf(fs) if fs else None, nf(do) if do else None)
+        if fs is not None and do is not None and hs is not None:
+            fs, do = unwrap(fs), unwrap(do)
+            hsz = next((v for v in walk(hb_) if v.get('kind') == 'VarDecl' and v.get('name') == 'header_size' and kids(v)), None)
+            hpoly = PH.poly(kids(hsz)[-1]) if hsz is not None else None
+            fpoly = PH.poly(fs)
+            want_data = _pa(_pm(_pm(_pat('width'), _pat('height')), _pat('pixel_bytes')), _pm(_pat('row_padding_bytes'), _pat('height')))
+            okh = hpoly is not None and _pa(fpoly, hpoly, -1) == want_data and PH.poly(do) == hpoly
+            whyh = 'BMP header sizes: file_size - header_size = %s (expected %s); data_offset = %s' % (_ps(_pa(fpoly, hpoly, -1)) if hpoly is not None else '?', _ps(want_data), nf(do))
+        ctx.check(okh, R, 'header|sizes', ih[0], 'file_size = header + W*H*pixel_bytes + padding*H; data_offset = header size', whyh)
+        # bit depth / compression per alpha mode: a conditional value, or assignments under the has_alpha test
+        # (a field never assigned keeps the 0 of the cleared header)
+        cleared = any((x.get('kind') in ('CXXOperatorCallExpr', 'BinaryOperator') and canon(x['inner'][1] if x.get('kind') == 'CXXOperatorCallExpr' else x['inner'][0]) == 'header' and 'InitListExpr' in [y.get('kind') for y in walk(x)]) or
+                      (x.get('kind') == 'CallExpr' and call_name(x) == 'memset' and 'header' in canon(call_args(x)[0]) and int_value(call_args(x)[1]) == 0) for x in walk(hb_))
+
+        def per_alpha(field):
+            out = {}
+            for x in walk(hb_):
+                if (x.get('kind') == 'CXXOperatorCallExpr' and call_name(x) == 'operator=') or (x.get('kind') == 'BinaryOperator' and x.get('opcode') == '='):
+                    lhs = x['inner'][1] if x.get('kind') == 'CXXOperatorCallExpr' else x['inner'][0]
+                    rhs = x['inner'][2] if x.get('kind') == 'CXXOperatorCallExpr' else x['inner'][1]
+                    if canon(lhs) != field:
+                        continue
+                    r0 = unwrap(rhs)
+                    if r0 is not None and r0.get('kind') == 'ConditionalOperator' and canon(r0['inner'][0]) == 'has_alpha':
+                        out[True], out[False] = int_value(r0['inner'][1]), int_value(r0['inner'][2])
+                        continue
+                    pol_ = next((p_ for n_, p_ in atoms(path_facts(x)) if canon(n_) == 'has_alpha'), None)
+                    if pol_ is None:
+                        out[True] = out[False] = int_value(unwrap(rhs))
+                    else:
+                        out[pol_] = int_value(unwrap(rhs))
+            if cleared:
+                out.setdefault(True, 0)
+                out.setdefault(False, 0)
+            return out
+        bdv, cmv = per_alpha('header.info_header.bit_depth'), per_alpha('header.info_header.compression')
+        ctx.check(bdv == {True: 32, False: 24} and cmv == {True: 3, False: 0}, R, 'header|depth-compression', ih[0], '32-bit BITFIELDS with alpha, 24-bit RGB without', 'bit depth / compression fields per alpha mode are %s / %s' % (bdv, cmv))
 
         R = 'C06-R6'
         # saver: file byte i <- memory byte chan[i]
@@ -742,6 +783,23 @@ def run(ctx):
             ctx.undecided(R, 'chunk|crc-chain', W, crc_und)
             okc = True
         ctx.check(okc, R, 'chunk|crc-chain', W, 'crc32(0, type, 4) then crc32(crc, data, size)', 'CRC does not cover exactly the type followed by the data')
+        # zlib: the output buffer handed to compress2 holds compressBound(sourceLen) bytes for the very sourceLen
+        # that is compressed (a smaller bound makes incompressible pixel data fail with Z_BUF_ERROR)
+        from poly import Poly as _PZ
+        PZ = _PZ(SV, u)
+        for cz in [c for c in walk(svb) if c.get('kind') == 'CallExpr' and call_name(c) in ('compress2', 'compress')]:
+            az = call_args(cz)
+            src_len = PZ.poly(az[3])
+            lv = ref_decl(strip(kids(strip(az[1]))[0])) if strip(az[1]).get('kind') == 'UnaryOperator' and strip(az[1]).get('opcode') == '&' else None
+            lvd = next((v for v in walk(svb) if v.get('kind') == 'VarDecl' and lv is not None and v.get('id') == lv.get('id') and kids(v)), None)
+            bcall = next((c for c in walk(kids(lvd)[-1]) if c.get('kind') == 'CallExpr' and call_name(c) == 'compressBound'), None) if lvd is not None else None
+            if bcall is None:
+                ctx.undecided(R, 'png|compress-bound', cz, 'the destination length of %s is not a variable initialised with compressBound(...)' % call_name(cz))
+                continue
+            bound_of = PZ.poly(call_args(bcall)[0])
+            from poly import p_str as _pstr
+            ctx.check(bound_of == src_len, R, 'png|compress-bound', bcall, 'output buffer = compressBound(%s), the length that is compressed' % _pstr(src_len),
+                      'the output buffer is sized compressBound(%s) but %s bytes are compressed: when the pixel data does not compress, compress2 fails with Z_BUF_ERROR and save() throws' % (_pstr(bound_of), _pstr(src_len)))
         # zlib: crc32(crc, Z_NULL, len) returns the *initial* value 0, not crc.  A chunk without payload
         # (IEND) is written with a null data pointer, so the payload update must be skipped for it
         null_passed = [c for c in walk_deep(svb, u) if c.get('kind') == 'CallExpr' and call_name(c) == 'write_png_chunk' and len(call_args(c)) >= 2 and
